@@ -57,7 +57,12 @@ pub fn run(ctx: &mut Ctx) {
         let conv = (i % 2) as u8;
         let r = core_only(&mut rng, conv == 1);
         let st = if i % 3 == 0 { Style::plain() } else { Style { seed: rng.next(), spaces: true, comments: i % 3 == 2, wrap: false, crlf: false, unit_space: false } };
-        let text = wf::spell(&r, &st);
+        let mut text = wf::spell(&r, &st);
+        // with a front matter, a `>>` line directly between two step lines (no blank line) is a block of its own under every extension set
+        if r.front.is_some() && rng.chance(1, 2) {
+            text.push_str(rng.pick_str(&["\n\nStir well.\n>> plain: text\nServe now.\n", "\n\n>> first: line\nThen rest.\n", "\n\nRest it.\n>> last: line\n", "\n\nStir.\n>> a: b\n>> c: d\nServe.\n"]));
+            ctx.count("core:front-matter-and->>-line-inside-a-paragraph");
+        }
         let mut first: Option<String> = None;
         for k in 0..256 {
             let ext = ext_pattern(k);
